@@ -79,6 +79,9 @@ inductive Op
   | unset (n : Str)
   | read (pre : List (Str Ã— Str)) (names : List Str) (line : Str)
   | cd (args : List Str)
+  /-- `NAME=v f` where `f` is a shell function: `core::try_run_func` runs the body in the shell itself and never looks at the
+  command's assignment prefix (`cmd.envs`) -- no child is launched, nothing is set -/
+  | prefixedFn (n v : Str)
   deriving Repr
 
 /-- the path `cd` will look at: `-` is the previous directory, a relative path is appended to the cwd -/
@@ -101,6 +104,7 @@ def cdTo (fs : Str â†’ FsRes) (s : St) : Option Str â†’ St Ã— Int Ã— List (Str Ã
 def step (fs : Str â†’ FsRes) (s : St) : Op â†’ St Ã— Int Ã— List (Str Ã— Str)
   | .assign n v => (setEnv s n v, 0, [])
   | .prefixed n v => (s, 0, [(n, v)])
+  | .prefixedFn _ _ => (s, 0, [])
   | .export n v => ({ s with exported := put s.exported n v }, 0, [])
   | .unset n =>
     if unsetNameOk n then ({ s with vars := del s.vars n, exported := del s.exported n }, 0, []) else (s, 1, [])
